@@ -787,7 +787,7 @@ fn galois_impl(sec: &str, c: &SCase, seed: u64) -> CaseOut {
                 if e.msg.dense() {
                     let mut a = ct.clone();
                     try_op!(sec, w, "apply_galois_inplace", level, ctxs(), ev.apply_galois_inplace(&mut a, g, &gk));
-                    let mut b = Ciphertext::new();
+                    let mut b = crate::he::dirty_like(ct, (level as u64) * 3 + 1);
                     try_op!(sec, w, "apply_galois(dest)", level, ctxs(), ev.apply_galois(ct, g, &gk, &mut b));
                     if let Some(f) = forms_agree(sec, &w, "apply_galois", level, &r, &a, &b) {
                         return f;
@@ -931,7 +931,7 @@ fn rotate_impl(sec: &str, c: &SCase, seed: u64) -> CaseOut {
                 }
                 if e.msg.dense() {
                     let mut a = ct.clone();
-                    let mut b = Ciphertext::new();
+                    let mut b = crate::he::dirty_like(ct, (level as u64) * 3 + 2);
                     if ckks {
                         try_op!(sec, w, "rotate_vector_inplace", level, ctxs(), ev.rotate_vector_inplace(&mut a, s, gk));
                         try_op!(sec, w, "rotate_vector(dest)", level, ctxs(), ev.rotate_vector(ct, s, gk, &mut b));
@@ -966,7 +966,7 @@ fn rotate_impl(sec: &str, c: &SCase, seed: u64) -> CaseOut {
             }
             if e.msg.dense() {
                 let mut a = ct.clone();
-                let mut b = Ciphertext::new();
+                let mut b = crate::he::dirty_like(ct, (level as u64) * 3 + 3);
                 if ckks {
                     try_op!(sec, w, "complex_conjugate_inplace", level, ctxs(), ev.complex_conjugate_inplace(&mut a, gk));
                     try_op!(sec, w, "complex_conjugate(dest)", level, ctxs(), ev.complex_conjugate(ct, gk, &mut b));
@@ -1052,7 +1052,7 @@ fn keyswitch_impl(sec: &str, c: &SCase, seed: u64, big: Option<bool>) -> CaseOut
                 if e.msg.dense() {
                     let mut a = ct.clone();
                     try_op!(sec, w, "apply_keyswitching_inplace", level, ctxs(), ev.apply_keyswitching_inplace(&mut a, ksk));
-                    let mut b = Ciphertext::new();
+                    let mut b = crate::he::dirty_like(ct, (level as u64) * 3 + 4);
                     try_op!(sec, w, "apply_keyswitching(dest)", level, ctxs(), ev.apply_keyswitching(ct, ksk, &mut b));
                     if let Some(f) = forms_agree(sec, &w, "apply_keyswitching", level, &r, &a, &b) {
                         return f;
@@ -1675,7 +1675,7 @@ fn check_big(bc: &BCase, seed: u64) -> CaseOut {
                     if e.msg.dense() && dflt.contains(&g) {
                         let mut a = ct.clone();
                         try_op!(sec, w, "apply_galois_inplace", level, ctxs(), ev.apply_galois_inplace(&mut a, g, &gk));
-                        let mut b = Ciphertext::new();
+                        let mut b = crate::he::dirty_like(ct, (level as u64) * 3 + 5);
                         try_op!(sec, w, "apply_galois(dest)", level, ctxs(), ev.apply_galois(ct, g, &gk, &mut b));
                         if let Some(f) = forms_agree(sec, &w, "apply_galois", level, &r, &a, &b) {
                             return f;
@@ -1806,7 +1806,7 @@ fn check_big(bc: &BCase, seed: u64) -> CaseOut {
                 }
                 if e.msg == Msg::Ramp && is_structured && bc.op != BigOp::RotateFew {
                     let mut a = ct.clone();
-                    let mut b = Ciphertext::new();
+                    let mut b = crate::he::dirty_like(ct, (level as u64) * 3 + 6);
                     if ckks {
                         try_op!(sec, w, "rotate_vector_inplace", level, ctxs(), ev.rotate_vector_inplace(&mut a, s, gk));
                         try_op!(sec, w, "rotate_vector(dest)", level, ctxs(), ev.rotate_vector(ct, s, gk, &mut b));
